@@ -670,12 +670,12 @@ func c20ModesScripts(shard int, f func(*c20Script)) {
 		return pkglint.VerifC20Op{Kind: "L", Key: key, Spelling: sp, Opts: o}
 	}
 	for ci := 0; ci <= len(c20ModesContents); ci++ {
-		files := map[int]string{1: "B= 1\n"}
+		files := map[int]string{1: "B= 1\n", 5: "SUB= \\\n 5\n"}
 		if ci < len(c20ModesContents) {
 			files[0] = c20ModesContents[ci]
 		}
 		mk := func(mode string, capacity int, ops ...pkglint.VerifC20Op) {
-			f(&c20Script{Mode: mode, Cap: capacity, Files: files, Keys: []int{0, 1}, Ops: ops})
+			f(&c20Script{Mode: mode, Cap: capacity, Files: files, Keys: []int{0, 1, 5}, Ops: ops})
 		}
 		for o2 := 0; o2 < 16; o2++ {
 			mk("d", 2, load(0, 0, o1), load(0, 1, o2))
@@ -686,6 +686,8 @@ func c20ModesScripts(shard int, f func(*c20Script)) {
 				mk("d", 2, load(0, 0, o1), pkglint.VerifC20Op{Kind: "M", Key: 0, Content: c}, load(0, 1, o2), load(0, 0, o1))
 			}
 			mk("d", 1, load(0, 0, o1), load(1, 0, 4), load(0, 1, o2), load(0, 0, o1))
+			// file 5 = sub/f0.mk: the same base name as file 0 in another directory
+			mk("d", 3, load(0, 0, o1), load(5, 0, o1), load(0, 1, o2), load(5, 1, o2))
 			mk("a", 2, load(0, 0, o1), pkglint.VerifC20Op{Kind: "X", View: 0, Line: 0, Fix: "A", RawIndex: 0, TextIndex: 2, From: " ", To: "\t"},
 				pkglint.VerifC20Op{Kind: "S", View: 0}, load(0, 1, o2), load(0, 0, o1))
 		}
@@ -700,6 +702,10 @@ func c20RandomScript(rng *Rng, maxLen int) *c20Script {
 		if !rng.Chance(8) {
 			s.Files[k] = Pick(rng, c20RandContents)
 		}
+	}
+	if rng.Chance(30) {
+		s.Keys = append(s.Keys, 5) // sub/f0.mk: same base name as file 0, another directory
+		s.Files[5] = Pick(rng, c20RandContents)
 	}
 	s.Keys = append(s.Keys, 8) // not cached: no .mk suffix
 	s.Files[8] = Pick(rng, c20RandContents)
